@@ -216,7 +216,8 @@ def _worker(mod, seed, wid, nworkers, k0, deadline, max_runs, wfd, shm, stop_aft
       if res.get('violations'):
         if any(match_known(known, v) is None for v in res['violations']):
           nviol += 1
-        _send(wfd, ('viol', idx, res['violations'], tp.recorded(), res.get('sample')))
+        _send(wfd, ('viol', idx, res['violations'], tp.recorded(), res.get('sample'),
+                    [wid + j * nworkers for j in range(k0, k - 1)]))
       if res.get('abnormal'):
         _send(wfd, ('abn', idx, res['abnormal']))
       if res.get('poison'):
@@ -290,11 +291,11 @@ def search(mod, seed, budget_s, max_runs, nworkers, stop_after_viol=3):
         elif msg[0] == 'viol':
           if any(match_known(known, v) is None for v in msg[2]):
             n_unknown[0] += 1
-            viols.append({'idx': msg[1], 'violations': msg[2], 'tape': msg[3], 'sample': msg[4]})
+            viols.append({'idx': msg[1], 'violations': msg[2], 'tape': msg[3], 'sample': msg[4], 'hist': msg[5]})
           else:
             n_known_kept[0] += 1
             if n_known_kept[0] <= 50:
-              viols.append({'idx': msg[1], 'violations': msg[2], 'tape': msg[3], 'sample': msg[4]})
+              viols.append({'idx': msg[1], 'violations': msg[2], 'tape': msg[3], 'sample': msg[4], 'hist': msg[5]})
             else:
               viols.append({'idx': msg[1], 'violations': msg[2], 'tape': None, 'sample': None})
         elif msg[0] == 'abn':
@@ -340,13 +341,21 @@ def search(mod, seed, budget_s, max_runs, nworkers, stop_after_viol=3):
 
 
 # ------------------------------------------------------------- forked one-off
-def run_tape_forked(mod, values, timeout_s=60):
-  """Run one tape in a forked child; returns result dict or None on failure."""
+def run_tape_forked(mod, values, timeout_s=60, history=None):
+  """Run one tape in a forked child; returns result dict or None on failure.
+
+  history: [(seed, run_index), ...] - earlier runs executed first in the same child process, for
+  violations that depend on what earlier runs left behind in the process (cross-run state)."""
   r, w = os.pipe()
   pid = os.fork()
   if pid == 0:
     os.close(r)
     try:
+      for (hseed, hidx) in (history or []):
+        htp = tape_mod.Tape(tape_mod.derive_seed(hseed, mod.PROPERTY, hidx))
+        hres = run_guarded(mod, htp, timeout_s)
+        if hres.get('poison'):
+          break
       tp = tape_mod.Tape(values=values)
       res = run_guarded(mod, tp, timeout_s)
       out = {'violations': res.get('violations', []), 'abnormal': res.get('abnormal'),
@@ -359,7 +368,7 @@ def run_tape_forked(mod, values, timeout_s=60):
   os.close(w)
   rd = _Reader(r)
   os.set_blocking(r, False)
-  end = _rt() + timeout_s + 5
+  end = _rt() + timeout_s + 5 + 2 * len(history or [])
   out = None
   while _rt() < end and not rd.eof:
     ready, _, _ = select.select([r], [], [], 0.5)
@@ -390,7 +399,37 @@ def _same_violation(res, clause, known):
   return None
 
 
-def minimise(mod, values, clause, known, budget_s=60, max_cands=600):
+def minimise_history(mod, values, clause, known, history, budget_s=60, max_cands=60):
+  """Shrinks the list of earlier runs a cross-run violation needs (the final tape stays last)."""
+  t_end = _rt() + budget_s
+  cands = [0]
+
+  def ok(h):
+    if _rt() > t_end or cands[0] >= max_cands:
+      return False
+    cands[0] += 1
+    return _same_violation(run_tape_forked(mod, values, 60, h), clause, known) is not None
+
+  best = list(history)
+  # shortest suffix
+  n = 1
+  while n < len(best):
+    if ok(best[-n:]):
+      best = best[-n:]
+      break
+    n *= 2
+  # drop single runs
+  i = 0
+  while i < len(best) and len(best) > 1:
+    c = best[:i] + best[i + 1:]
+    if ok(c):
+      best = c
+    else:
+      i += 1
+  return best, cands[0]
+
+
+def minimise(mod, values, clause, known, budget_s=60, max_cands=600, history=None):
   """Generic tape shrinking; keeps candidates that violate the same clause."""
   t_end = _rt() + budget_s
   best = list(values)
@@ -400,7 +439,7 @@ def minimise(mod, values, clause, known, budget_s=60, max_cands=600):
     if _rt() > t_end or cands[0] >= max_cands:
       return None
     cands[0] += 1
-    res = run_tape_forked(mod, c, 30)
+    res = run_tape_forked(mod, c, 30, history)
     v = _same_violation(res, clause, known)
     if v is None:
       return None
@@ -450,7 +489,7 @@ def minimise(mod, values, clause, known, budget_s=60, max_cands=600):
   # strip trailing zeros
   while best and best[-1] == 0:
     best.pop()
-  final = run_tape_forked(mod, best, 30)
+  final = run_tape_forked(mod, best, 30, history)
   if _same_violation(final, clause, known) is None:
     return list(values), cands[0]
   return best, cands[0]
@@ -538,7 +577,8 @@ def do_replay(mod, path):
   with open(path) as f:
     body = json.load(f)
   known = load_known(mod.PROPERTY)
-  res = run_tape_forked(mod, body['tape'], 120)
+  history = [(h['seed'], h['run_index']) for h in body.get('history') or []]
+  res = run_tape_forked(mod, body['tape'], 120, history)
   if res is None:
     print('HARNESS-ERROR property=%s replay produced no result' % mod.PROPERTY)
     return 2
@@ -642,18 +682,34 @@ def main(mod, argv):
     reported.add(v['clause'])
     values = item['tape']
     ncand = 0
-    if not args.no_minimise:
+    history = None
+    # does the run reproduce on its own in a fresh process?  If not it depends on what earlier
+    # runs of the same worker process left behind: replay those runs first, then shrink that list.
+    alone = _same_violation(run_tape_forked(mod, values, 60), v['clause'], known) is not None
+    if not alone and item.get('hist'):
+      full = [(seed, i) for i in item['hist']]
+      if _same_violation(run_tape_forked(mod, values, 120, full), v['clause'], known) is not None:
+        history = full
+        if not args.no_minimise:
+          history, nh = minimise_history(mod, values, v['clause'], known, full, budget_s=cfg.get('minimise_s', 60))
+          ncand += nh
+    if not args.no_minimise and (alone or history is not None):
       try:
-        values, ncand = minimise(mod, values, v['clause'], known,
-                                 budget_s=cfg.get('minimise_s', 60))
+        values, nc = minimise(mod, values, v['clause'], known,
+                              budget_s=cfg.get('minimise_s', 60), max_cands=600 if alone else 120, history=history)
+        ncand += nc
       except Exception:  # pylint: disable=broad-except
         traceback.print_exc()
         values = item['tape']
-    final = run_tape_forked(mod, values, 60)
+    final = run_tape_forked(mod, values, 60, history)
     vv = _same_violation(final, v['clause'], known) or v
-    path = write_replay(mod, values, vv, seed, item['idx'], (final or {}).get('sample') or item.get('sample'),
-                        {'digest': (final or {}).get('digest'), 'original_tape_len': len(item['tape']),
-                         'minimised_tape_len': len(values), 'minimise_candidates': ncand})
+    extra_r = {'digest': (final or {}).get('digest'), 'original_tape_len': len(item['tape']),
+               'minimised_tape_len': len(values), 'minimise_candidates': ncand}
+    if history is not None:
+      extra_r['history'] = [{'seed': hs, 'run_index': hi} for (hs, hi) in history]
+      extra_r['history_note'] = ('cross-run violation: the earlier runs listed in "history" are executed first in the '
+                                 'same process (tapes derived from seed/property/run_index), then "tape"')
+    path = write_replay(mod, values, vv, seed, item['idx'], (final or {}).get('sample') or item.get('sample'), extra_r)
     # verify in a fresh interpreter
     try:
       p = subprocess.run([sys.executable, os.path.join(VERIF, 'check'), mod.PROPERTY, '--replay', path],
@@ -662,8 +718,9 @@ def main(mod, argv):
     except Exception:  # pylint: disable=broad-except
       verified = False
     print('violation clause=%s details=%s' % (vv['clause'], json.dumps(vv.get('details', {}), default=str)[:1200]))
-    print('replay_verified_in_fresh_process=%s tape_len=%d (from %d, %d candidates)' % (
-        verified, len(values), len(item['tape']), ncand))
+    print('replay_verified_in_fresh_process=%s tape_len=%d (from %d, %d candidates)%s' % (
+        verified, len(values), len(item['tape']), ncand,
+        (' after %d earlier run(s) in the same process' % len(history)) if history is not None else ''))
     print('VIOLATION property=%s replay=%s' % (mod.PROPERTY, path))
     replay_paths.append(path)
     rc = 1
